@@ -754,6 +754,142 @@ def kernel_distance_not_a_metric(X):
     return False
 
 
+# ----------------------------------------------------------------------------- wave 4: concurrent application
+# "so it can be applied to unseen vectors consistently": the returned function must be a FUNCTION of its argument.
+# Copies of a ProjectingFunction / TapkeeOutput share ONE implementation object through a shared_ptr, so an
+# application that projects a batch of unseen vectors from several threads (each with its own copy) runs project()
+# of the same object concurrently.  Theorems C07_project_writes_nothing (generated table), C07_readonly_calls_do_not_
+# interfere, C07_project_is_a_function_under_interleaving, C07_buffered_project_refuted.
+TSAN_ENV = {"TSAN_OPTIONS": "halt_on_error=0:exitcode=0:report_signal_unsafe=0", "OMP_NUM_THREADS": "1"}
+
+
+def gen_conc(rng, quick):
+    """CONC: MatrixProjectionImplementation(P, m) applied by T std::threads through copies (small harness, ASan+UBSan build
+    and ThreadSanitizer build); EMBC: the same through the public API (copies of the TapkeeOutput; std::threads and an
+    omp parallel for).  Long vectors keep one call long enough for calls of different threads to overlap."""
+    cases = []
+    plan = [(8, 2, 2, 200, 8, False), (64, 3, 4, 60, 16, False), (512, 4, 4, 24, 16, False), (2048, 5, 8, 6, 8, False),
+            (16, 2, 3, 10, 6, True), (256, 3, 4, 4, 8, True)]
+    if not quick:
+        plan += [(1, 1, 4, 400, 4, False), (3, 2, 8, 300, 16, False), (4096, 16, 4, 10, 16, False), (96, 5, 6, 100, 32, False),
+                 (1024, 8, 8, 4, 8, True), (3, 1, 2, 50, 4, True)] * 3
+    for D, d, T, reps, nq, tsan in plan:
+        m = [Fraction(rng.uniform(-5, 5)) for _ in range(D)]
+        cases.append({"kind": "CONC", "D": D, "d": d, "T": T, "reps": reps, "tsan": tsan,
+                      "P": [[Fraction(rng.uniform(-1, 1)) for _ in range(d)] for _ in range(D)], "m": m,
+                      "Q": [[m[t] + Fraction(rng.uniform(-3, 3)) for t in range(D)] for _ in range(nq)]})
+    api = [("rp", 512, 12, 4, 4, 6), ("pca", 24, 40, 3, 4, 25), ("pca", 96, 30, 5, 4, 10)]
+    if not quick:
+        api += [("rp", 4096, 20, 16, 4, 4), ("npe", 3, 20, 2, 4, 50), ("lltsa", 3, 20, 2, 4, 50), ("lpp", 3, 20, 2, 4, 50),
+                ("rp", 64, 8, 3, 8, 50), ("pca", 8, 64, 2, 8, 50)] * 2
+    for meth, D, N, d, T, reps in api:
+        X = [[Fraction(3 + rng.gauss(0, 1) * (1 + t % 7)) for t in range(D)] for _ in range(N)]
+        Q = [[Fraction(4.5 + rng.gauss(0, 1.5) * (1 + t % 7)) for t in range(D)] for _ in range(8)]
+        cases.append({"kind": "EMBC", "method": meth, "solver": "dense", "N": N, "D": D, "d": d, "k": 6, "T": T,
+                      "reps": reps, "X": X, "Q": Q})
+    return cases
+
+
+def conc_line(c):
+    nums = lambda l: " ".join(float(x).hex() for x in l)
+    if c["kind"] == "CONC":
+        return "CONC %d %d %d %d %d %s %s %s" % (c["D"], c["d"], c["T"], c["reps"], len(c["Q"]), nums(flat(c["P"])),
+                                                 nums(c["m"]), nums(flat(c["Q"])))
+    return "EMBC %s %s %d %d %d %d %d %d %d %s %s" % (c["method"], c["solver"], c["N"], c["D"], c["d"], c["k"], len(c["Q"]),
+                                                     c["T"], c["reps"], nums(flat(c["X"])), nums(flat(c["Q"])))
+
+
+def conc_harnesses(ctx):
+    """(ASan+UBSan build, ThreadSanitizer build or None) of harness/c07_conc.cpp: it includes <tapkee/projection.hpp>
+    only, a few seconds each"""
+    if getattr(ctx, "_c07_conc", None) is None:
+        exe_a = ctx.cpp("harness/c07_conc.cpp", name="c07_conc")
+        try:
+            exe_t = ctx.cpp("harness/c07_conc.cpp", name="c07_conc_tsan", sanitize=False,
+                            extra=["-O1", "-g", "-fsanitize=thread", "-UNDEBUG"])
+        except vlib.BuildError as ex:
+            exe_t = None
+            ctx.note("ThreadSanitizer build of harness/c07_conc.cpp not available: %s" % str(ex)[-300:])
+        ctx._c07_conc = (exe_a, exe_t)
+    return ctx._c07_conc
+
+
+def evaluate_conc(ctx, exe_api, cases, st, record=True):
+    verdicts = []
+    for c in cases:
+        st.evaluated += 1
+        tsan = False
+        if c["kind"] == "CONC":
+            exe_a, exe_t = conc_harnesses(ctx)
+            tsan = bool(c.get("tsan")) and exe_t is not None
+            r = ctx.run(exe_t if tsan else exe_a, conc_line(c) + "\n", timeout=300,
+                        env=TSAN_ENV if tsan else {"OMP_NUM_THREADS": "2"})
+        else:
+            r = ctx.run(exe_api, conc_line(c) + "\n", timeout=300, env={"OMP_NUM_THREADS": "2"})
+        R, X, ended = {}, None, False
+        for line in r.out.splitlines():
+            w = line.split()
+            if len(w) >= 2 and w[0] == "R":
+                R[w[1]] = w[2:]
+            elif w and w[0] == "X":
+                X = " ".join(w[2:])
+            elif w and w[0] == "END":
+                ended = True
+        who = ("MatrixProjectionImplementation(P, m) through copies of one ProjectingFunction" if c["kind"] == "CONC"
+               else "the projection function returned by %s through copies of the TapkeeOutput" % c["method"])
+        head = "%s, applied by %d application threads at once (D = %d, d = %d)" % (who, c["T"], c["D"], c["d"])
+
+        def viol(why):
+            verdicts.append("violation")
+            if record:
+                ctx.violation(case_json(c), why)
+        if r.timed_out or (r.rc != 0 and not tsan) or not ended:
+            viol("%s: the implementation aborts / hangs: %s" % (
+                head, "timeout" if r.timed_out else crash_text(r.sanitizer or r.err[-600:] or "rc=%d" % r.rc)))
+            continue
+        if c["kind"] == "EMBC" and R.get("has", [""])[0] != "1":
+            if X is not None:
+                verdicts.append("skip")
+                st.bump(st.skipped, c["method"] + ":exception")
+            else:
+                viol("method %s returned an EMPTY projection function" % c["method"])
+            continue
+        if X is not None:
+            viol("%s: raised %s" % (head, X))
+            continue
+        try:
+            calls = int(R["calls"][0])
+            wrong = int(R["wrong"][0]) + int(R.get("ompwrong", ["0"])[0])
+            seq = int(R["seqcheck"][0])
+        except (KeyError, ValueError, IndexError):
+            viol("%s: output missing or malformed: %r" % (head, sorted(R)[:6]))
+            continue
+        st.conc_calls += calls
+        st.bump(st.conc, ("tsan:" if tsan else "") + c["kind"])
+        if wrong or seq:
+            first = R.get("first", [])
+            ftxt = ""
+            if len(first) == 5:
+                ftxt = ("; first: %s %s, vector %s, column %s: got %s, sequential answer for the same vector %s" % (
+                    "OpenMP thread" if first[0].isdigit() and int(first[0]) >= 100 else "thread",
+                    first[0] if not (first[0].isdigit() and int(first[0]) >= 100) else str(int(first[0]) - 100),
+                    first[1], first[2], first[3], first[4]))
+            viol("%s is NOT a function of its argument: %d of %d concurrent answers differ bitwise from the sequential "
+                 "answer for the same vector%s%s (the copies share one implementation object: a call sees state "
+                 "written by another call)" % (head, wrong, calls, " and %d sequential answers changed afterwards" % seq
+                                               if seq else "", ftxt))
+            continue
+        if tsan and "ThreadSanitizer: data race" in r.err:
+            i = r.err.find("ThreadSanitizer: data race")
+            frames = [l.strip() for l in r.err[i:i + 6000].splitlines() if "projection.hpp" in l or l.strip().startswith(
+                ("Write of", "Read of", "Previous write", "Previous read"))]
+            viol("%s: ThreadSanitizer reports a data race between concurrent calls (project() writes state shared by all "
+                 "copies): %s" % (head, " | ".join(frames[:6])[:900]))
+            continue
+        verdicts.append("ok")
+    return verdicts
+
+
 class Stats:
     def __init__(self):
         self.hist = {}
@@ -763,6 +899,8 @@ class Stats:
         self.spec_calls = 0
         self.exact_compared = 0
         self.bitwise_pi = 0
+        self.conc = {}
+        self.conc_calls = 0
 
     def bump(self, d, k, n=1):
         d[k] = d.get(k, 0) + n
@@ -1242,8 +1380,19 @@ def run(ctx):
     st = Stats()
     cases, hist = build_cases(ctx, quick)
     verdicts = evaluate(ctx, exe, mexe, cases, st)
+    # wave 4: the returned function applied from several application threads at once
+    conc = gen_conc(ctx.rng, quick)
+    verdicts += evaluate_conc(ctx, exe, conc, st)
+    for c in conc:
+        bump(hist, "concurrent-application:" + ("threadsanitizer" if c.get("tsan") else c["kind"]))
+    cases += conc
     # search phase: an obligation or the correspondence broke but no input violates the spec yet
     searched = 0
+    if ctx.is_unshown() and not ctx.has_violation():
+        more = gen_conc(ctx.rng, False)
+        verdicts += evaluate_conc(ctx, exe, more, st)
+        cases += more
+        searched += len(more)
     if ctx.is_unshown() and not ctx.has_violation():
         extra = []
         for meth in FIVE:
@@ -1260,7 +1409,7 @@ def run(ctx):
                 gen_boundary_internal(ctx.rng, BOUNDARY_N_THOROUGH, False):
             extra += variants(ctx.rng, c, 3, 1)
         v2 = evaluate(ctx, exe, mexe, extra, st)
-        searched = len(extra)
+        searched += len(extra)
         cases += extra
         verdicts += v2
     # coverage sanity: every projecting method must have been evaluated at least once
@@ -1282,7 +1431,7 @@ def run(ctx):
     for c in cases:
         nontrivial = (c["kind"] == "EMB" and c["method"] in FIVE and c["N"] >= 3) or \
                      (c["kind"] in ("MEAN", "PROJ") and c["N"] >= 2 and c["D"] >= 1) or \
-                     (c["kind"] == "MPI" and c["D"] >= 2)
+                     (c["kind"] == "MPI" and c["D"] >= 2) or c["kind"] in ("CONC", "EMBC")
         if nontrivial:
             distinct.add(hashlib.sha1(json.dumps(case_json(c), sort_keys=True).encode()).hexdigest())
     samples = []
@@ -1314,13 +1463,19 @@ def run(ctx):
              "and of RandomProjection at 2^+-600 / 2^+-900; every sixth public-API case of a projecting method (N <= 64) once "
              "more under another OpenMP environment (1 thread; OMP_THREAD_LIMIT 2 < OMP_NUM_THREADS 4; nested parallelism "
              "on) and every sixth one with the call made from inside a parallel region of the harness (3 threads at once).  "
+             "Wave 4: CONCURRENT APPLICATION: MatrixProjectionImplementation(P, m) (D in 8 .. 2048) applied by 2 .. 8 std::threads "
+             "at once through their own copies of one ProjectingFunction (copy construction and copy assignment), every answer "
+             "compared bitwise with the sequential answer, in an ASan+UBSan build and in a ThreadSanitizer build of "
+             "harness/c07_conc.cpp; the same through the public API for RandomProjection (D = 512) and PCA (D = 24, 96): "
+             "copies of the TapkeeOutput in std::threads and an omp parallel for over the batch.  "
              "non-trivial = "
              "projecting API case with N >= 3, MEAN/PROJ with N >= 2, MPI with D >= 2; distinct by hash of the case.",
         samples=samples,
         histogram={"generators": hist, "verdicts": {v: verdicts.count(v) for v in set(verdicts)},
                    "api_cases_evaluated_per_method": st.per_method_ok, "skipped": st.skipped,
                    "spec_decisions_run": st.spec_calls, "exact_model_comparisons": st.exact_compared,
-                   "projection_bitwise_equal_to_embedding_rows": st.bitwise_pi, "search_phase_cases": searched},
+                   "projection_bitwise_equal_to_embedding_rows": st.bitwise_pi, "search_phase_cases": searched,
+                   "concurrent_application_cases": st.conc, "concurrent_calls_compared_bitwise": st.conc_calls},
         trusted_base=TRUSTED,
         assumptions=["feature vectors are finite doubles and all have the dimension the callback announces",
                      "N >= 1 (the constructor rejects an empty range before any method runs)",
@@ -1334,6 +1489,19 @@ def replay(ctx, case):
     mexe = ctx.extract()
     c = case_from_json(case)
     st = Stats()
+    if c.get("kind") in ("CONC", "EMBC"):
+        v = "ok"
+        for rep in range(3):              # a race needs an overlap: several repetitions
+            v = evaluate_conc(ctx, exe, [c], st)[0]
+            if v != "ok":
+                break
+        for cs, why in ctx._violations[:3]:
+            print("why: " + why[:900])
+        if v == "violation" or ctx.has_violation():
+            print("replay: property C07 FAILS on this input")
+            return 1
+        print("replay: property C07 holds on this input")
+        return 0
     v = evaluate(ctx, exe, mexe, [c], st)[0]
     r = run_impl(ctx, exe, [c])[0]
     for tag, toks in list(r["R"].items())[:8]:
